@@ -35,8 +35,17 @@ Fixpoint cl_first_bad (k : qkind) (n : nat) (enq_first : bool) (q : list Z) (i :
       if obs_matches c f then cl_first_bad k n enq_first q' (S i) r else Some i
   end.
 
-Definition first_regs (h : list cobs) : nat -> Z :=
-  match h with [] => fun _ => 0 | c :: _ => fun j => nth j (co_regs c) 0 end.
+(* the model replays start from the register state that was observed in the first cycle of the history
+   (a history normally opens with a reset cycle, whose pre-state is whatever the previous history left) *)
+Definition regs_fun (l : list Z) : nat -> Z := fun j => nth j l 0.
+Definition c_first (h : list cobs) : cstate Z :=
+  match h with [] => mkC 0 0 0 (fun _ => 0)
+  | c :: _ => mkC (Z.to_nat (co_a c)) (Z.to_nat (co_b c)) (Z.to_nat (co_c c)) (regs_fun (co_regs c)) end.
+Definition o_first (h : list cobs) : ostate Z :=
+  match h with [] => mkO false 0 | c :: _ => mkO (negb (co_c c =? 0)) (nth 0 (co_regs c) 0) end.
+Definition v_first (h : list cobs) : vstate Z :=
+  match h with [] => mkV 0 0 false (fun _ => 0)
+  | c :: _ => mkV (Z.to_nat (co_b c)) (Z.to_nat (co_a c)) (negb (co_c c =? 0)) (regs_fun (co_regs c)) end.
 
 Definition min_opt (x y : option nat) : option nat :=
   match x, y with
@@ -53,15 +62,15 @@ Definition case_first_bad (c : Z * Z * Z * list ccode) : option nat :=
   let h := map cobs_of hc in
   let ho := map co h in
   let spec := fifo_first_bad k n [] 0%nat ho in
-  let o0 := mkO false (first_regs h 0%nat) in
+  let o0 := o_first h in
   let model :=
-    if mid =? 1 then crtl_first_bad k n true (mkC 0 0 0 (first_regs h)) 0%nat h
-    else if mid =? 2 then crtl_first_bad k n false (mkC 0 0 0 (first_regs h)) 0%nat h
+    if mid =? 1 then crtl_first_bad k n true (c_first h) 0%nat h
+    else if mid =? 2 then crtl_first_bad k n false (c_first h) 0%nat h
     else if mid =? 3 then o1_first_bad (e1_step k) o0 0%nat h
     else if mid =? 4 then o1_first_bad (s1_step k) o0 0%nat h
     else if mid =? 5 then o1_first_bad (p1_step k) o0 0%nat h
     else if mid =? 6 then o1_first_bad (v1_step k) o0 0%nat h
-    else if mid =? 7 then vq_first_bad n (mkV 0 0 false (first_regs h)) 0%nat h
+    else if mid =? 7 then vq_first_bad n (v_first h) 0%nat h
     else if mid =? 8 then cl_first_bad k n true [] 0%nat ho
     else if mid =? 9 then cl_first_bad k n false [] 0%nat ho
     else None in
